@@ -278,6 +278,8 @@ def run(rep, tier):
     null_strings(rep, fb, 'R07.7')
     lua_marshalling_faults(rep, fb)
     double_delete(rep, fb)
+    from . import C15
+    C15.nesting_bound(rep, fb, 'R07.12')
     # ---- R07.1
     for eq in ENGINES:
         f = fb.fn(eq)
